@@ -231,7 +231,7 @@ struct Q10 { #[scylla(flatten)] r: Q2b, e: i32 } }
 fam! { #[derive(SerializeRow)]
 struct F10 { #[scylla(flatten)] q: Q10, #[scylla(flatten)] p: Q1 } }
 
-// an empty struct, flattened (outside rdesc_wf: the documented table is not applied to these two)
+// an empty struct, flattened (the shape of finding F16, fixed in /repo fb90e43)
 fam! { #[derive(SerializeRow)]
 struct E0 {} }
 fam! { #[derive(SerializeRow)]
